@@ -48,67 +48,13 @@ def mentions_end(e, depth=0):
     return False
 
 
-def run(ctx, res):
-    sh = ctx.shape
-    rxs = lexer_regexes(sh)
-    names = sorted(rxs)
-    out = grex([("newline", rxs[n]) for n in names])
-    multiline = {n for n, line in zip(names, out) if line.startswith("fail")}
-    for n, line in zip(names, out):
-        res.ok("MULTILINE-TOKEN", "%s %s" % (n, "can match a newline" if n in multiline else "cannot match a newline"))
-    lb = S.find_fn(sh, LEX, "lex_between")
-    _LETS.clear()
-    for n in S.walk(lb["body"]):
-        if n["k"] == "Let" and n.get("init") is not None and n["pat"]["k"] == "PIdent" and not n["pat"].get("mut"):
-            _LETS.setdefault(n["pat"]["name"], []).append(n["init"])
-    # from_offset bindings: let (a, b) = lp.from_offset(<expr>)
-    fo = {}
-    for n in S.walk(lb["body"]):
-        if n["k"] == "Let" and n["init"] is not None and n["init"]["k"] == "MethodCall" and n["init"]["method"] == "from_offset":
-            arg = n["init"]["args"][0]
-            for name in S.pat_bindings(n["pat"]):
-                fo[name] = fo.get(name, []) + [arg]
-    n_pos = 0
-    for n in S.walk(lb["body"]):
-        if n["k"] != "If" or n["cond"]["k"] != "LetCond":
-            continue
-        c = n["cond"]["e"]
-        if not (c["k"] == "MethodCall" and c["method"] == "find" and c["recv"]["k"] == "Path" and c["recv"]["path"] in rxs):
-            continue
-        rx = c["recv"]["path"]
-        for st in S.walk(n["then"]):
-            if st["k"] == "Struct" and st["path"].endswith("Position"):
-                fm = field_map(st)
-                if "end_offset" not in fm or not mentions_end(fm["end_offset"]):
-                    continue
-                n_pos += 1
-                key = "parser::lex::lex_between # %s token position" % rx
-                if rx not in multiline:
-                    res.ok("MULTILINE-TOKEN", key + " (single-line token kind)")
-                    continue
-                bad = []
-                for fld in ("end_line_number", "end_column"):
-                    e = fm.get(fld)
-                    ids = S.idents_in(e) if e is not None else set()
-                    srcs = [a for i in ids for a in fo.get(i, [])]
-                    if not srcs or not all(mentions_end(a) for a in srcs):
-                        bad.append(fld)
-                if bad:
-                    res.bad("MULTILINE-TOKEN", key + " # " + ",".join(bad),
-                            "%s can match text containing a newline, but the token's %s is not computed from the end offset "
-                            "(LinePositions::from_offset(offset + match.end())): it is wrong for multi-line tokens" % (rx, " and ".join(bad)),
-                            "%s:%d" % (LEX, S.line(st)))
-                else:
-                    res.ok("MULTILINE-TOKEN", key + ": end line/column from from_offset(end offset)")
-                    res.sample({"rule": "MULTILINE-TOKEN", "regex": rx, "line": S.line(st)})
-    res.floor("MULTILINE-TOKEN", "whole-match token positions in lex_between", n_pos, 4)
-
+def position_group_pairs(P, res, M=M):
+    """POSITION-GROUP and POSITION-PAIRS (shared with C29: fix positions become LSP edits)."""
+    PADT = "parser::position::Position"
     # ---- POSITION-GROUP: a Position that is edited in place keeps its offsets and its line/column in step. Whoever assigns
     # `<pos>.start_offset` also assigns `<pos>.column` and `<pos>.line_number` (unless the new offset is the start of the same
     # line, found with rfind('\n')); whoever assigns `<pos>.end_offset` also assigns `.end_column` and `.end_line_number`.
     from .. import sandbox as SB
-    P = ctx.P
-    PADT = "parser::position::Position"
     stores = {fld: SB.field_stores(P, fld, adt=PADT) for fld in ("start_offset", "end_offset", "column", "end_column", "line_number", "end_line_number")}
     n_grp = 0
 
@@ -201,6 +147,64 @@ def run(ctx, res):
                                 g.loc(st["span"]))
     res.floor("POSITION-PAIRS", "position ends copied from other positions", n_pairs, 15)
 
+
+
+def run(ctx, res):
+    sh = ctx.shape
+    rxs = lexer_regexes(sh)
+    names = sorted(rxs)
+    out = grex([("newline", rxs[n]) for n in names])
+    multiline = {n for n, line in zip(names, out) if line.startswith("fail")}
+    for n, line in zip(names, out):
+        res.ok("MULTILINE-TOKEN", "%s %s" % (n, "can match a newline" if n in multiline else "cannot match a newline"))
+    lb = S.find_fn(sh, LEX, "lex_between")
+    _LETS.clear()
+    for n in S.walk(lb["body"]):
+        if n["k"] == "Let" and n.get("init") is not None and n["pat"]["k"] == "PIdent" and not n["pat"].get("mut"):
+            _LETS.setdefault(n["pat"]["name"], []).append(n["init"])
+    # from_offset bindings: let (a, b) = lp.from_offset(<expr>)
+    fo = {}
+    for n in S.walk(lb["body"]):
+        if n["k"] == "Let" and n["init"] is not None and n["init"]["k"] == "MethodCall" and n["init"]["method"] == "from_offset":
+            arg = n["init"]["args"][0]
+            for name in S.pat_bindings(n["pat"]):
+                fo[name] = fo.get(name, []) + [arg]
+    n_pos = 0
+    for n in S.walk(lb["body"]):
+        if n["k"] != "If" or n["cond"]["k"] != "LetCond":
+            continue
+        c = n["cond"]["e"]
+        if not (c["k"] == "MethodCall" and c["method"] == "find" and c["recv"]["k"] == "Path" and c["recv"]["path"] in rxs):
+            continue
+        rx = c["recv"]["path"]
+        for st in S.walk(n["then"]):
+            if st["k"] == "Struct" and st["path"].endswith("Position"):
+                fm = field_map(st)
+                if "end_offset" not in fm or not mentions_end(fm["end_offset"]):
+                    continue
+                n_pos += 1
+                key = "parser::lex::lex_between # %s token position" % rx
+                if rx not in multiline:
+                    res.ok("MULTILINE-TOKEN", key + " (single-line token kind)")
+                    continue
+                bad = []
+                for fld in ("end_line_number", "end_column"):
+                    e = fm.get(fld)
+                    ids = S.idents_in(e) if e is not None else set()
+                    srcs = [a for i in ids for a in fo.get(i, [])]
+                    if not srcs or not all(mentions_end(a) for a in srcs):
+                        bad.append(fld)
+                if bad:
+                    res.bad("MULTILINE-TOKEN", key + " # " + ",".join(bad),
+                            "%s can match text containing a newline, but the token's %s is not computed from the end offset "
+                            "(LinePositions::from_offset(offset + match.end())): it is wrong for multi-line tokens" % (rx, " and ".join(bad)),
+                            "%s:%d" % (LEX, S.line(st)))
+                else:
+                    res.ok("MULTILINE-TOKEN", key + ": end line/column from from_offset(end offset)")
+                    res.sample({"rule": "MULTILINE-TOKEN", "regex": rx, "line": S.line(st)})
+    res.floor("MULTILINE-TOKEN", "whole-match token positions in lex_between", n_pos, 4)
+
+    position_group_pairs(ctx.P, res)
     # ---- NO-SRC-LAST-RESORT (shared with C29): go-to-definition reports byte columns only when the file cannot be read
     from . import c29 as _c29
     _c29.no_src_last_resort(ctx.P, res)
